@@ -49,6 +49,8 @@ var pathTemplates = []string{
 var queries = []string{"", "?skipAll=true", "?allowMissingFileHeader=true&allowMissingFileControl=true&allowZeroBatches=true&bypassOrigin=true&bypassDestination=true",
 	"?customTraceNumbers=maybe", "?preserveSpaces=true&allowSpecialCharacters=true&unequalAddendaCounts=true&allowInvalidAmounts=true"}
 
+var lineEndings = []string{"-", "CRLF", "LF", "", "x", "crlf"}
+
 var seededIDs = []string{"e1", "e2", "e3", "e4", "e5", "e6", "e7"}
 
 func mustJSON(v any) []byte {
@@ -221,6 +223,12 @@ func serve(h http.Handler, rq request) (outcome, int) {
 			req.Header.Set("Content-Type", rq.ct)
 		}
 		req.Header.Set("Origin", "https://example.com")
+		if le := lineEndings[len(rq.path+rq.body.name+rq.ct)%len(lineEndings)]; le != "-" {
+			req.Header.Set("X-Line-Ending", le)
+		}
+		if len(rq.body.name)%2 == 0 {
+			req.Header.Set("X-Request-ID", "req-1")
+		}
 		rec := httptest.NewRecorder()
 		h.ServeHTTP(rec, req)
 		code = rec.Code
